@@ -312,8 +312,8 @@ impl CasObject {
         requires
             // (P1) the physical offsets are accumulated in u32: a header must start at most 2^32 - 2^24 - 8 bytes in
             old(reader).bytes().len() + MAX_3BYTE <= u32::MAX,
-            // (P2) `unpacked_chunk_offset` is accumulated in u32 (DESIGN 7-d): the decoded lengths of the chunks the footer points at must sum to < 2^32
-            spec_footer(old(reader).bytes()) matches Some(f) ==> f.unpacked_sum(old(reader).bytes(), f.info.num_chunks as int) <= u32::MAX,
+            // (no precondition on the unpacked total: since commit dce91f9 the u32 accumulation of `unpacked_chunk_offset` is a
+            //  `checked_add` that rejects; on the pre-fix code the `+=` overflow obligation fails -- DESIGN 7-d)
         ensures
             final(reader).bytes() == old(reader).bytes(),
             r matches Ok(Some(cas)) ==> ({
@@ -337,7 +337,6 @@ impl CasObject {
                 spec_footer(b) == Some(cas), footer_tables_ok(cas), cas.info_length + 4 <= b.len(), cas.info_length >= 8,
                 reader.pos() <= b.len(),
                 reader.pos() == (if idx == 0 { (b.len() - 4) as nat } else { spec_chunk_end(b, cas.chunk_start(idx as int - 1)) }),
-                cas.unpacked_sum(b, cas.info.num_chunks as int) <= u32::MAX,
                 hash_chunks@.len() == idx,
                 cumulative_compressed_length == start_offset, start_offset == cas.chunk_start(idx as int),
                 unpacked_chunk_offset == cas.unpacked_sum(b, idx as int),
@@ -347,7 +346,6 @@ impl CasObject {
             let ghost hc0 = hash_chunks@;
 //@ after `length: chunk_uncompressed_length as usize, });`
             proof {
-                lemma_unpacked_sum_mono(cas, b, idx as int + 1, cas.info.num_chunks as int);
                 assert(hash_chunks@ =~= hc0.push(hash_chunks@[idx as int]));
                 assert forall|i: int| 0 <= i < idx + 1 implies chunk_pairs(hash_chunks@)[i] == cas.decoded_list(b, idx as int + 1)[i] by {
                     if i < idx { assert(chunk_pairs(hc0)[i] == cas.decoded_list(b, idx as int)[i]); }
@@ -356,6 +354,66 @@ impl CasObject {
             }
 //@ end
 }
+
+// ==== streaming validator (validate_xorb_stream.rs): the block that compares a parsed footer with what was computed from the chunks ====
+fn vx_min(a: usize, b: usize) -> (r: usize) ensures r == (if a <= b { a } else { b }) { if a <= b { a } else { b } }
+// R7 outlines (bodies are the original expressions after R15; contracts assumed)
+// `Vec<u32> != Vec<u32>`: element-wise comparison
+#[verifier::external_body]
+fn vx_vec_u32_ne(a: &Vec<u32>, b: &Vec<u32>) -> (r: bool) ensures r == (a@ != b@) { a != b }
+// the combinator chain introduced by commit dce91f9: u32::try_from(len) then checked_add, `None` mapped to a FormatError
+#[verifier::external_body]
+fn vx_checked_prefix(prefixsum: u32, length: usize) -> (r: Result<u32, CasObjectError>)
+    ensures match r {
+        Ok(v) => v == prefixsum + length && prefixsum + length <= u32::MAX,
+        Err(e) => prefixsum + length > u32::MAX && e is FormatError,
+    }
+{
+    u32::try_from(length)
+        .ok()
+        .and_then(|len| prefixsum.checked_add(len))
+        .ok_or_else(|| { CasObjectError::FormatError(vx_anyhow()) })
+}
+// sum of the computed (uncompressed) lengths of chunks 0..i
+spec fn len_sum(s: Seq<Chunk>, i: int) -> nat decreases i {
+    if i <= 0 { 0 } else { len_sum(s, i - 1) + s[i - 1].length as nat }
+}
+
+//@ extract cas_object/src/validate_xorb_stream.rs region _validate_cas_object_from_async_read
+//@ block `if let Some(cas_object) = &maybe_cas_object {`
+//@ sig `fn vx_stream_footer_check(cas_object: &CasObject, hash: &MerkleHash, chunk_hash_and_size: Vec<Chunk>, compressed_chunk_boundary_offsets: Vec<u32>) -> (r: Result<(), CasObjectError>)`
+//@ epilogue `Ok(())`
+//@ rules R15 R4z
+//@ optsubst `cas_object_info.chunk_boundary_offsets != compressed_chunk_boundary_offsets` => `vx_vec_u32_ne(&cas_object_info.chunk_boundary_offsets, &compressed_chunk_boundary_offsets)` :: R7 outline: Vec<u32> inequality (no vstd spec), assumed element-wise
+//@ optsubst `u32::try_from(computed_chunk.length) .ok() .and_then(|len| prefixsum.checked_add(len)) .ok_or_else(|| { CasObjectError::FormatError(vx_anyhow()) })` => `vx_checked_prefix(prefixsum, computed_chunk.length)` :: R7 outline: Option/Result combinator chain with closures; assumed = checked u32 addition, overflow -> FormatError
+//@ contract
+    // no precondition: holds for every footer and every computed chunk list (no overflow, no index out of bounds)
+    ensures
+        /*@C08*/ r is Ok ==> ({
+            let info = cas_object.info;
+            let n = chunk_hash_and_size@.len();
+            &&& info.cashash == *hash
+            &&& info.num_chunks == n
+            &&& info.chunk_boundary_offsets@ == compressed_chunk_boundary_offsets@
+            // footer hashes equal the computed hashes pointwise
+            &&& info.chunk_hashes@.len() == n && forall|i: int| 0 <= i < n ==> info.chunk_hashes@[i] == chunk_hash_and_size@[i].hash
+            // footer unpacked offsets are the prefix sums of the computed lengths (as far as the footer table goes: `zip` stops at the
+            // shorter side and the table length is not compared here; the footer parser guarantees num_chunks entries)
+            &&& forall|i: int| 0 <= i < n && i < info.unpacked_chunk_offsets@.len() ==> info.unpacked_chunk_offsets@[i] == len_sum(chunk_hash_and_size@, i + 1)
+        }),
+        // every rejection is a format error (mapped to Ok(None) by ok_for_format_error in the public wrapper)
+        /*@C08*/ r matches Err(e) ==> e is FormatError,
+//@ loop 1
+        invariant
+            cas_object_info == &cas_object.info,
+            cas_object_info.chunk_hashes@.len() == chunk_hash_and_size@.len(),
+            forall|i: int| 0 <= i < vx_z ==> cas_object_info.chunk_hashes@[i] == chunk_hash_and_size@[i].hash,
+//@ loop 2
+        invariant
+            cas_object_info == &cas_object.info,
+            prefixsum == len_sum(chunk_hash_and_size@, vx_z as int),
+            forall|i: int| 0 <= i < vx_z ==> cas_object_info.unpacked_chunk_offsets@[i] == len_sum(chunk_hash_and_size@, i + 1),
+//@ end
 
 } // verus!
 fn main() {}
